@@ -63,3 +63,19 @@ CONTRACT[K + 'phasePlotRegion'] = dict(
 CONTRACT[K + 'phasePlotAnnotation'] = dict(
     self=mk_sequence(), modifies=[], raises=[],
     ensures=['annotation_ok(result, region_spec(npos(self.seq, 0, self.len), nneg(self.seq, 0, self.len), self.len))'])
+
+# ----------------------------------------------------------------------------- C09.d: isoelectric point
+CONTRACT[K + 'isoelectric_point'] = dict(
+    self=mk_sequence(), modifies=[],
+    may_raise=[('SequenceException', 'True')],     # that the search never gives up is NOT proved (bounded check only)
+    ensures=['absv(charge_norm(self.seq, self.len, result)) <= 0.02',
+             'implies(n_titratable(self.seq, 0, self.len) == 0, result == 7.0)'])
+LOOPS[K + 'isoelectric_point'] = {0: dict(
+    types={'protein_charge': 'real', 'min_pH': 'real', 'max_pH': 'real', 'mid_pH': 'real'},
+    invariant=['And(0 <= breakcount, breakcount <= 19)', 'And(0 <= errorcount, errorcount <= 10)',
+               'implies(n_titratable(self.seq, 0, self.len) == 0, And(min_pH == 0, max_pH == 14, breakcount == 0))'],
+    transition=['bisect_step(pre("min_pH"), pre("max_pH"), pre("breakcount"), pre("protein_charge"), min_pH, max_pH, mid_pH, protein_charge)',
+                'protein_charge == charge_norm(self.seq, self.len, mid_pH)',
+                'breakcount == ite(pre("breakcount") + 1 == 20, lambda: 0, lambda: pre("breakcount") + 1)',
+                'errorcount == ite(pre("breakcount") + 1 == 20, lambda: pre("errorcount") + 1, lambda: pre("errorcount"))'],
+    variant='(10 - errorcount, 20 - breakcount)')}
